@@ -4,9 +4,8 @@
    Definitions only; proofs live in Proofs/GraphLemmas.v.
 
    The model mirrors the code WITH the proposed repair of proposed_fixes/C09-root-unwrapped-visited.diff:
-     - the visited set is seeded with the root's type AND its unwrapped form.
-   It reproduces the remaining defects (bare-origin references for subscripted generics, module taken
-   from the qualified name for nested classes, text-based splitting of PEP 604 unions). *)
+     - the visited set and the root's path are seeded with the root's type AND its unwrapped form.
+   It reproduces the remaining defect (module taken from the qualified name for nested classes). *)
 From Coq Require Import List Arith Bool PeanoNat String Ascii.
 Import ListNotations.
 Local Open Scope string_scope.
@@ -233,20 +232,18 @@ Definition has_bracket (E : env) (t : gty) : bool :=
    isgeneric(t) already holds when '[' in str(t). *)
 Definition is_subscripted := has_bracket.
 
-(* inspection.isstdlibtype.  Optional: all of get_args[:-1]; other unions: all members;
-   otherwise membership of resolve_supertype(t) (or of type(t)) in STDLIB_TYPES. *)
+(* inspection.isstdlibtype.  Optional: all members other than None; other unions: all members
+   (None itself is stdlib, so: all members); otherwise membership of resolve_supertype(t) (or of
+   type(t)) in STDLIB_TYPES. *)
 Fixpoint resolve_super (t : gty) : gty := match t with GNewType _ _ x => resolve_super x | _ => t end.
 Definition in_stdlib_set (t : gty) : bool :=
   match t with GScalar s => scalar_stdlib s | GNone => true | _ => false end.
-Definition is_none (t : gty) : bool := match t with GNone => true | _ => false end.
 Fixpoint is_stdlib (t : gty) : bool :=
   match t with
   | GUnion _ ms =>
       let fix all (l : list gty) : bool :=
         match l with [] => true | x :: r => is_stdlib x && all r end in
-      let fix all_but_last (l : list gty) : bool :=
-        match l with [] => true | x :: r => match r with [] => true | _ => is_stdlib x && all_but_last r end end in
-      if existsb is_none ms then all_but_last ms else all ms
+      all ms
   | _ => in_stdlib_set (resolve_super t)
   end.
 
@@ -327,16 +324,21 @@ Definition module_attr (E : env) (t : gty) : option str :=
 (* nodes                                                                                        *)
 (* ------------------------------------------------------------------------------------------- *)
 (* nfor is book-keeping of the model only: the annotation a node was made for (for a cyclic node:
-   the child it replaced).  TypeNode.__eq__/__hash__ use (type, unwrapped, var) and ignore cyclic. *)
+   the child it stands for).  TypeNode.__eq__/__hash__ use (type, unwrapped, var, cyclic). *)
 Record node := { ntype : gty; nunw : gty; nvar : option str; ncyc : bool; nfor : gty }.
 Definition node_eqb (a b : node) : bool :=
-  gty_eqb (ntype a) (ntype b) && gty_eqb (nunw a) (nunw b) && ostr_eqb (nvar a) (nvar b).
+  gty_eqb (ntype a) (ntype b) && gty_eqb (nunw a) (nunw b) && ostr_eqb (nvar a) (nvar b)
+  && Bool.eqb (ncyc a) (ncyc b).
 Definition is_ref (t : gty) : bool := match t with GRef _ _ => true | _ => false end.
 
 Definition mknode (c u : gty) (var : option str) : node :=
   {| ntype := c; nunw := u; nvar := var; ncyc := false; nfor := c |}.
 
-(* The revisit branch of get_type_graph:
+(* a revisited generic / union / qualified annotation is deferred as ITSELF, flagged cyclic *)
+Definition mkdefer (c u : gty) (var : option str) : node :=
+  {| ntype := c; nunw := u; nvar := var; ncyc := true; nfor := c |}.
+
+(* The reference branch of get_type_graph (revisited classes and other named objects):
      qualname = inspection.qualname(child); *rest, refname = qualname.split(".", maxsplit=1)
      module = ".".join(rest) or getattr(child, "__module__", None)
      ref  = refs.forwardref(refname, module=module)       -- name.replace(module + ".", "")
@@ -366,28 +368,47 @@ Arguments Ok {A}. Arguments OutOfFuel {A}. Arguments Unmodelled {A}.
 
 Definition revisit (c u : gty) (seen : list gty) : bool := mem c seen || mem u seen.
 
-(* A subscripted generic is looked up among the types on the tree path from the root (it is deferred only
-   when it is its own ancestor); everything else in the global visited set. *)
-Definition seen_set (E : env) (u : gty) (V path : list gty) : list gty :=
-  if is_subscripted E u then path else V.
+(* inspection.isuniontype on an unwrapped annotation; inspection.should_unwrap (Final / ClassVar) *)
+Definition is_union (u : gty) : bool := match u with GUnion _ _ => true | _ => false end.
+Definition should_unwrap (c : gty) : bool := match c with GFinal _ => true | _ => false end.
+Definition is_generic (E : env) (u : gty) : bool := is_subscripted E u || is_union u.
 
-(* one parent: the list of predecessor nodes in declaration order and the visited set afterwards;
+(* A generic (subscripted or union) is looked up among the types on the tree path from the root (it is
+   deferred only when it is its own ancestor); everything else in the global visited set. *)
+Definition seen_set (E : env) (u : gty) (V path : list gty) : list gty :=
+  if is_generic E u then path else V.
+
+(* the walk's memory: the visited set (types) and the set of nodes already pushed ("expanded") *)
+Definition state := (list gty * list node)%type.
+Definition nmem (n : node) (X : list node) : bool := existsb (node_eqb n) X.
+
+(* is_visited: found in the set it is looked up in; a generic is also "visited" when the node it would
+   produce (type, unwrapped, var) has already been pushed elsewhere in the graph *)
+Definition visitedb (E : env) (c u : gty) (var : option str) (st : state) (path : list gty) : bool :=
+  revisit c u (seen_set E u (fst st) path) || (is_generic E u && nmem (mknode c u var) (snd st)).
+Definition push_st (c u : gty) (var : option str) (st : state) : state :=
+  (c :: fst st, mknode c u var :: snd st).
+
+(* one parent: the list of predecessor nodes in declaration order and the memory afterwards;
    only node.type of a pushed child is added to visited *)
-Fixpoint expand (E : env) (kids : list (option str * gty)) (V path : list gty) : option (list node * list gty) :=
+Fixpoint expand (E : env) (kids : list (option str * gty)) (st : state) (path : list gty) : option (list node * state) :=
   match kids with
-  | [] => Some ([], V)
+  | [] => Some ([], st)
   | (var, c) :: rest =>
-      if skip var c then expand E rest V path
+      if skip var c then expand E rest st path
       else
         let u := unwrap c in
-        if revisit c u (seen_set E u V path) && can_be_cyclic E u then
-          match mkref E c u var with
-          | Some n => match expand E rest V path with Some (ps, V') => Some (n :: ps, V') | None => None end
-          | None => None
-          end
+        if visitedb E c u var st path && can_be_cyclic E u then
+          if is_generic E u || should_unwrap c then
+            match expand E rest st path with Some (ps, st') => Some (mkdefer c u var :: ps, st') | None => None end
+          else
+            match mkref E c u var with
+            | Some n => match expand E rest st path with Some (ps, st') => Some (n :: ps, st') | None => None end
+            | None => None
+            end
         else
-          match expand E rest (c :: V) path with
-          | Some (ps, V') => Some (mknode c u var :: ps, V')
+          match expand E rest (push_st c u var st) path with
+          | Some (ps, st') => Some (mknode c u var :: ps, st')
           | None => None
           end
   end.
@@ -399,7 +420,7 @@ Definition pushed (path : list gty) (preds : list node) : list (node * list gty)
 Definition adjacency := list (node * list node).   (* graph.add(parent, *predecessors), in call order *)
 
 (* fuel = number of parents popped (deque.popleft) *)
-Fixpoint bfs (fuel : nat) (E : env) (queue : list (node * list gty)) (V : list gty) : res adjacency :=
+Fixpoint bfs (fuel : nat) (E : env) (queue : list (node * list gty)) (st : state) : res adjacency :=
   match queue with
   | [] => Ok []
   | (p, path) :: rest =>
@@ -408,12 +429,12 @@ Fixpoint bfs (fuel : nat) (E : env) (queue : list (node * list gty)) (V : list g
       | S f =>
           let pu := unwrap (ntype p) in
           if is_literal pu then
-            match bfs f E rest V with Ok adj => Ok ((p, []) :: adj) | OutOfFuel => OutOfFuel | Unmodelled => Unmodelled end
+            match bfs f E rest st with Ok adj => Ok ((p, []) :: adj) | OutOfFuel => OutOfFuel | Unmodelled => Unmodelled end
           else
-            match expand E (level E pu) V path with
+            match expand E (level E pu) st path with
             | None => Unmodelled
-            | Some (preds, V') =>
-                match bfs f E (rest ++ pushed path preds) V' with
+            | Some (preds, st') =>
+                match bfs f E (rest ++ pushed path preds) st' with
                 | Ok adj => Ok ((p, preds) :: adj)
                 | OutOfFuel => OutOfFuel
                 | Unmodelled => Unmodelled
@@ -426,7 +447,7 @@ Definition root_node (t : gty) : node := mknode t (unwrap t) None.
 
 (* graph.get_type_graph(t) *)
 Definition type_graph (fuel : nat) (E : env) (t : gty) : res adjacency :=
-  bfs fuel E [(root_node t, [t; unwrap t])] [t; unwrap t].
+  bfs fuel E [(root_node t, [t; unwrap t])] ([t; unwrap t], [root_node t]).
 
 Definition adj_nodes (a : adjacency) : list node := flat_map (fun e => fst e :: snd e) a.
 
